@@ -469,6 +469,17 @@ func runC11(c *Ctx) {
 		c.Observe("operator "+w.src, true)
 		c.Law(got == w.want, "C11/operator-meaning", "every operator token is compiled to its own operation (and polarity binds tighter than the binary operators)", w.src, got+" want "+w.want)
 	}
+	// a tree whose one rendering compiles also compiles in the other: an invocation directly on an Integer literal
+	// (`1.toString()`: the literal ends before the dot), a sign at the start of a function argument
+	for _, pair := range [][2]string{{"1.toString()", "(1).toString()"}, {"1.toString()", "1 .toString()"}, {"12.toString() = '12'", "(12).toString() = '12'"}, {"2 + 3.select($this * 2)", "2 + (3).select($this * 2)"},
+		{"1.select($this)", "1/* c */.select($this)"}, {"10.toString().length()", "(10).toString().length()"}, {"1.5.toString()", "(1.5).toString()"}, {"0.exists()", "(0).exists()"}, {"7.combine(8)", "(7).combine(8)"},
+		{"(5).select(+$this)", "(5).select((+$this))"}, {"'abcdef'.substring(+2)", "'abcdef'.substring((+2))"}, {"iif(+1 = 1, 'y', 'n')", "iif((+1) = 1, 'y', 'n')"}, {"(5).select(-$this)", "(5).select((-$this))"},
+		{"'abcdef'.substring(1, +2)", "'abcdef'.substring(1, (+2))"}, {"Patient.name.where(+1 = 1).count()", "Patient.name.where((+1) = 1).count()"}, {"(1).select(+ 1)", "(1).select((+ 1))"}} {
+		a, _ := evalSrc(pair[0])
+		b, _ := evalSrc(pair[1])
+		c.Observe("literal receiver / signed argument "+pair[0], true)
+		c.Law(a == b, "C11/same-outcome", "all renderings of a tree compile alike and evaluate identically", fmt.Sprintf("%q vs %q", pair[0], pair[1]), a+" vs "+b)
+	}
 	// a tree whose one rendering compiles also compiles in the other: the Integer boundary under polarity
 	for _, pair := range [][2]string{{"-2147483648", "-(2147483648)"}, {"-2147483648", "(-(2147483648))"}, {"- 2147483648", "-(2147483648)"}, {"-2147483648 + 1", "-(2147483648) + 1"}, {"-2147483647", "-(2147483647)"},
 		{"+2147483648", "+(2147483648)"}, {"-2147483648.0", "-(2147483648.0)"}, {"1 - 2147483648", "1 - (2147483648)"}, {"-2147483648 'mg'", "-(2147483648 'mg')"}, {"(-2147483648).abs()", "(-(2147483648)).abs()"}} {
